@@ -145,7 +145,11 @@ def check_dict(rep, entry):
         rep.evaluations += 1
         p = tuple(row['p'])
         d = copy.deepcopy(d0)
-        got = get_in(d, p, 'DEFAULT')
+        try:
+            got = get_in(d, p, 'DEFAULT')
+        except Exception as e:
+            bad.append(('get_in raised %r' % (e,), d0, p))
+            continue
         if d != d0:
             bad.append(('get_in mutated', d0, p))
         if row['get'] == 'leaf':
@@ -156,6 +160,18 @@ def check_dict(rep, entry):
             exp = 'DEFAULT'
         if got != exp:
             bad.append(('get_in', d0, p, exp, got))
+        if row.get('through'):
+            # below a leaf there is nothing to read (above) or to delete; writing
+            # there is outside the domain
+            d = copy.deepcopy(d0)
+            try:
+                delete_in(d, p)
+            except Exception as e:
+                bad.append(('delete_in(below a leaf) raised %r' % (e,), d0, p))
+                continue
+            if d != d0:
+                bad.append(('delete_in(below a leaf)', d0, p, d0, d))
+            continue
         expa = build_dict(row['assocdn'], row['assoclf'])
         d = copy.deepcopy(d0)
         r = assoc_path(d, p, 9)
@@ -226,8 +242,8 @@ def check(prop, tier, seed):
                 'keys + ".." up to the length bound, and every dictionary of depth '
                 '<= 2 x every key path of length <= 3; each row is one implementation '
                 'test; non-trivial = rows whose path contains ".." / writes below the root')
-    rep.assumptions = ['paths escaping the root and key paths running through a leaf '
-                       'value are outside the domain (the helpers raise)']
+    rep.assumptions = ['paths escaping the root are outside the domain; below a leaf value '
+                       'there is nothing to read or delete, writing there is outside the domain']
     with tlc.Scratch() as scratch:
         run(rep, tier, scratch)
     return rep.finish()
